@@ -65,7 +65,7 @@ def _fmt(sweeps):
 
 
 def verdict(index, entry, aspect, chunk=None):
-    """aspect in {'partition', 'order', 'retain'} -> (status, text, derivation). chunk: True = only pairs with a chunk size,
+    """aspect in {'partition', 'vmap', 'order', 'retain'} -> (status, text, derivation). chunk: True = only pairs with a chunk size,
     False = only pairs without, None = all."""
     ev = [x for x in evidence(index, entry) if chunk is None or (x[1] is not None) == chunk]
     n = 0
@@ -98,6 +98,16 @@ def verdict(index, entry, aspect, chunk=None):
                     bad = f"{len(blocks)} sweeps of sizes {[len(b) for b in blocks]} instead of ceil(m/k)={math.ceil(m / keff)}"
                 if bad:
                     return "violated", f"for {tag}: {bad}", {"m": m, "k": k, "sweeps": _fmt(sw)}
+            elif aspect == "vmap":
+                if any(not isinstance(e.get("rowspan"), tuple) for e in sw):
+                    return "undecided", f"instance run {tag}: the rows carried by the cotangents of a sweep were lost: {_fmt(sw)}", {}
+                for e in sw:
+                    nrows = len(_rows(e["rowspan"]))
+                    if nrows == 1 and e.get("vmapped"):
+                        return "violated", (f"for {tag}: the sweep over rows {_rows(e['rowspan'])} has a single row but runs torch.autograd.grad under torch.vmap "
+                                            f"({e['loc']}): computations that vmap cannot handle fail although differentiation could be sequential"), {"m": m, "k": k, "sweeps": _fmt(sw)}
+                    if nrows > 1 and not e.get("vmapped"):
+                        return "undecided", f"instance run {tag}: a sweep of {nrows} rows is not under torch.vmap ({e['loc']})", {}
             elif aspect == "order":
                 if len(p["agg"]) != 1:
                     return "undecided", f"instance run {tag}: {len(p['agg'])} aggregator calls on a returning path", {}
@@ -124,5 +134,6 @@ def verdict(index, entry, aspect, chunk=None):
         return "undecided", "no instance run reached a sweep", {}
     return "ok", (f"instance runs (sizes concrete, tensors abstract) on {len(ev)} (m, k) pairs, m <= 6, {n} paths: "
                   + {"partition": "the sweeps cover rows 0..m-1 exactly once, in order, in ceil(m/k) non-empty blocks of at most k rows",
+                     "vmap": "every sweep of a single row calls torch.autograd.grad directly; only sweeps of more than one row run under torch.vmap",
                      "order": "row i of the matrix handed to the aggregator is the Jacobian of row i of the cotangents",
                      "retain": "every sweep but the last retains the graph; the last carries the caller's flag"}[aspect]), {"bounded": True, "pairs": len(ev), "paths": n}
